@@ -101,7 +101,7 @@ Definition dtype_code (d : dtype) : Z :=
 Definition is_float_type (d : dtype) : bool := match d with FLOAT | FLOAT16 | BFLOAT16 | DOUBLE => true | _ => false end.
 Definition is_fp_type (d : dtype) : bool := match d with FLOAT | DOUBLE => true | _ => false end.
 
-(* The repair of C19:*:epsilon-or-scale-rank-exceeds-input-rank (proposed_fixes/ready/C19_06): _ir_utils.broadcast_keeps_rank
+(* The repair of C19:*:epsilon-or-scale-rank-exceeds-input-rank (fix 4146a4e): _ir_utils.broadcast_keeps_rank
    (value, reference): the rank of value is known and is <= 1 or <= the known rank of reference.  Ranks: None = unknown. *)
 Definition keeps_rank (v x : option nat) : bool :=
   match v with
